@@ -95,14 +95,17 @@ def _frame(e):
     return '?'
 
 
-SUBS = [Sub('value', strategy, check, {'quick': 700, 'thorough': 20000})]
+SUBS = [Sub('value', strategy, check, {'quick': 4000, 'thorough': 40000}, timeout=30)]
 
 
 # ---- known-finding triggers (over-approximating structural predicates; see DESIGN.md section 7)
 def _ops(case):
     return [n['op'] for n in case['nodes']]
 
-TRIGGERS = {}
+TRIGGERS = {
+    # non-termination in programs that combine a diagonal with an inflation / take (over-approximation, DESIGN.md section 7)
+    'inflate-diagonalize-interplay': lambda case, v: 'diagonalize' in _ops(case) and bool({'inflate', 'take'} & set(_ops(case))),
+}
 
 MANIFEST = dict(
     category='exploration',
